@@ -20,16 +20,11 @@
       (breakdown with `n2 = 0` exactly), then `A q_k = Σ_i T_ik q_i` for the upper-Hessenberg `T` built from `h`
       (`T_ik = h_ik` for `i ≤ k + 1`, `0` below) — what `C07.arnoldi_relation` + `C07.column_of_T` give per iteration.
 
-  Correspondence with `Model.Krylov` (stated, not proved as one theorem — the part that is left of `C07.BreakdownExact`):
-  at the happy exit of iteration `j` the model returns `combine O ‖v‖ (mexp j (sliceM iv.T (j+1))) st.qs`
-  = `‖v‖ • Σ_{i ≤ j} expd[i,0] • qs[i]` (`lincomb` over `zip (col0 expd) qs`), with `expd = exp(T[:j+1,:j+1])` for the exact
-  oracle `C07.exactMexp`. `C07.arnoldi_relation` gives `A qs[k] = Σ ovs_i qs[k_start+i] + w_k`, `w_k = n2_k qs[k+1]`
-  at every iteration `k < j`, and `w_j = 0` when `n2 = 0`; `C07.column_of_T` says these numbers are column `k` of `T`
-  (entries of that column outside `k_start..k+1` keep their initial 0). What is NOT proved in Lean: (a) the loop invariant
-  that the columns `< j` written by earlier iterations are still there at iteration `j` (visible in the model — later
-  iterations only write columns `≥ j` — but not stated as a theorem), and (b) the list/array plumbing identifying
-  `combine …` with the `Finset` sum below. With (a) and (b), `krylov_breakdown_exact` (with `m = j+1`, `q_i = qs[i]`,
-  `β = ‖v‖`) is `BreakdownExact`. Orthonormality (`C07.vectors_orthonormal`) is not needed for this clause.
+  Correspondence with `Model.Krylov`: at the happy exit of iteration `j` the model returns
+  `combine O ‖v‖ (mexp j (sliceM iv.T (j+1))) st.qs` = `‖v‖ • Σ_{i ≤ j} expd[i,0] • qs[i]` with `expd = exp(T[:j+1,:j+1])` for the exact
+  oracle `C07.exactMexp`; `Props/C07BreakdownModel.lean` proves the loop invariant on `T` and the list/array plumbing and derives
+  `C07.BreakdownExact` itself (`breakdownExact_holds`) from `krylov_breakdown_exact_normalised` below (`m = j+1`, `q_i = qs[i]`,
+  `β = ‖v‖`). Orthonormality (`C07.vectors_orthonormal`) is not needed for this clause.
 -/
 import Mathlib.Analysis.Normed.Algebra.MatrixExponential
 import Mathlib.Analysis.Normed.Operator.NormedSpace
